@@ -6,6 +6,7 @@
   Every proof goes through the per-event inversion lemmas of Lemmas/Shutdown.lean.
 -/
 import Corerad.Lemmas.Shutdown
+import Corerad.Gen.Server
 
 namespace Corerad.Props.C08
 
@@ -17,6 +18,13 @@ open Corerad Corerad.Model
 theorem gen_facts :
     Gen.Advertise.shutdownAwaitsInflight = true ∧ Gen.Advertise.shutdownChecksTerminate = true ∧
     Gen.Advertise.shutdownCalls_send = true := by decide
+
+/-- The decision "terminate or reload" the advertiser acts on is the server's terminator, and the
+    signal task sets it from the signal before it cancels the tasks' context (regenerated from
+    `signalTask.Run`; the Serve scenarios of C20 also run under this property): a terminating
+    advertiser that finds its context cancelled already sees `terminate() = true`. -/
+theorem gen_terminate_visible_before_cancel :
+    Gen.Server.signalSetBeforeCancel = true ∧ Gen.Server.termIsIsTerminal = true := by decide
 
 /-- The send gate's protocol, as it stands in the source (statement lists, regenerated): `enter`
     refuses once the gate is closed and otherwise registers the transmission under the lock;
